@@ -521,7 +521,7 @@ func (g *GoBackNConn) receivePacketsForever() error { // nolint:gocyclo
 
 		// Notify the timeout manager that a message has been received.
 		g.timeoutManager.Received(msg)
-		vtrace(g.timeoutManager, "rx", int(b[0]))
+		vtraceRx(g.timeoutManager, b)
 
 		// Reset the ping & pong timer if any packet is received.
 		// If ping/pong is disabled, this is a no-op.
